@@ -108,6 +108,17 @@ class JSONData(ABC):
     def __repr(self):
         return str(self)
 
+    def __eq__(self, other):
+        """
+        Two blobs are equal when they are of the same kind and carry the same JSON value
+        """
+        if not isinstance(other, self.__class__) and not isinstance(self, other.__class__):
+            return False
+        return self.data == other.data
+
+    def __hash__(self):
+        return hash(json.dumps(self.data, sort_keys=True))
+
 
 class MeasurementData(JSONData):
 
